@@ -456,6 +456,266 @@ def split_value_grid():
     return out
 
 
+# ---------------------------------------------------------------- tabstops inside the values of id / class
+# The values of `id` and `class` are values like any other (the statement speaks of explicit fields "inside one value" and
+# of "tabstops of other values" without excepting any attribute), but the formatters write them on paths of their own:
+# pug/haml/slim write them FIRST, as `#id.cl1.cl2` directly after the name (blanks between class names become dots;
+# documented shape of these languages: https://pugjs.org/language/attributes.html#class-literal, haml/slim alike) and only
+# then the other attributes; the html family writes them in place like every attribute (and once more in comments).
+# The shorthand forms `#x` / `.x` cannot hold a field (`$` is the numbering mark there), so the field-carrying forms are the
+# bracket ones: [class="c ${1:k}"], [id=x${2}], alone or merged with shorthand classes (.a[class="b ${1}"] is ONE class
+# value `a b ${1}`, standing where the class attribute first occurred), anywhere among the other attributes.
+# Stream: elements with 1..4 bracket attributes drawn from {class with 1..3 blank-separated names and 1..3 fields, id with
+# fields, class / id without fields, empty value implied / quoted, other attribute with fields, plain attribute} in any
+# order, optionally shorthand id / classes, nameless, text (plain / with fields, also multi-line), children, `*N`, between
+# tabstop-taking siblings, in every markup syntax.  Expected structure from what the property says, built alongside:
+#   pug/haml/slim: id and class values (in their written order) -> other attributes (written order) -> text / empty leaf
+#                  -> children;  html family: attributes in written order -> text / empty leaf -> children.
+PRIMARY_FIELDS_ON = True
+# [class=""] / [id=""] (value written explicitly empty): OFF -- on the unchanged library pug/haml/slim write `p.` / `p#` with
+# no tabstop for that empty value (html writes class="${1}"); reported, see the final report of branch v2-syc13.  Switch on
+# once that is settled: the stream then expects one tabstop for such a value in every syntax.
+PRIMARY_EMPTY_VALUES_ON = False
+PRIM_NAMES = ['div', 'p', 'span', 'section', 'em', 'b', 'q', 'u', 'custom', 'main', 'nav', 'x-y', 'li', 'td', 'ul']
+PRIM_LITERALS = ['c', 'k', 'item', 'a-b', 'x1', 'Foo', 'is_on', 'w']
+PRIM_BLANKS = [' ', ' ', ' ', '  ', '\t', ' \t ']
+PRIM_PLACEHOLDERS = ['', '', 'k', 'ph', 'name', 'two w']
+
+
+def prim_value(rng, kind, nfields):
+    """(text, field indices in written order) of a class value (1..3 blank-separated names) or an id value (one name);
+    no index occurs twice; a field stands alone as a name, at the start, in the middle or at the end of one."""
+    ntok = rng.choice([1, 2, 2, 3]) if kind == 'class' else 1
+    idx = rng.sample(range(0, 6), nfields)
+    where = sorted(rng.randrange(ntok) for _ in idx)
+    toks = []
+    for t in range(ntok):
+        mine = [i for i, w in zip(idx, where) if w == t]
+        s = rng.choice(PRIM_LITERALS) if (not mine or rng.random() < 0.5) else ''
+        for i in mine:
+            ph = rng.choice(PRIM_PLACEHOLDERS)
+            s += '${%d:%s}' % (i, ph) if ph else '${%d}' % i
+            if rng.random() < 0.3:
+                s += rng.choice(PRIM_LITERALS)
+        toks.append(s)
+    text = toks[0]
+    for s in toks[1:]:
+        text += rng.choice(PRIM_BLANKS) + s
+    if kind == 'class' and rng.random() < 0.1:
+        text = rng.choice([' ', '\t']) + text
+    return text, idx
+
+
+PRIM_KINDS = ['class-f'] * 6 + ['id-f'] * 3 + ['class-plain', 'id-plain', 'empty', 'empty', 'empty-q', 'field', 'field', 'plain']
+
+
+def prim_element(rng, depth, html, force=None):
+    """(abbreviation, groups, has_child_operator) of one element whose id / class values may carry fields."""
+    entries = []                     # (attribute name, group or None) in the order the values are first written
+
+    def put(name, grp, empty=False):
+        for e in entries:
+            if e[0] == name:         # class given twice (shorthand + brackets): one merged value (not empty: no caret)
+                if grp and not empty:
+                    e[1] = (e[1] or []) + grp
+                return
+        entries.append([name, grp])
+    head = '' if rng.random() < 0.1 else rng.choice(PRIM_NAMES)
+    has_short_id = rng.random() < 0.12 and force != 'id-f'
+    if has_short_id:
+        head += '#' + rng.choice(['i', 'main', 'x1'])
+        put('id', None)
+    if rng.random() < 0.3:
+        for c in rng.sample(['a', 'b-c', 'it'], rng.randint(1, 2)):
+            head += '.' + c
+        put('class', None)
+    kinds = [force] if force else []
+    kinds += [rng.choice(PRIM_KINDS) for _ in range(rng.randint(1, 4) - len(kinds))]
+    if PRIMARY_EMPTY_VALUES_ON and rng.random() < 0.2:
+        kinds.append(rng.choice(['class-empty', 'id-empty']))
+    rng.shuffle(kinds)
+    parts = []
+    used = set(['id'] if has_short_id else [])
+    for k in kinds:
+        if k in ('class-f', 'class-plain', 'class-empty'):
+            n = 'class'
+        elif k in ('id-f', 'id-plain', 'id-empty'):
+            n = 'id'
+        elif k in ('empty', 'empty-q'):
+            n = rng.choice(['title', 'alt', 'data-e'])
+        elif k == 'field':
+            n = rng.choice(['data-f', 'href', 'for'])
+        else:
+            n = rng.choice(['data-v', 'lang'])
+        if n in used:
+            continue
+        used.add(n)
+        if k in ('class-f', 'id-f'):
+            v, f = prim_value(rng, n, rng.choice([1, 1, 2, 2, 3]))
+            q = '"' if (re.search(r'\s', v) or rng.random() < 0.6) else ''
+            parts.append('%s=%s%s%s' % (n, q, v, q))
+            put(n, f)
+        elif k in ('class-plain', 'id-plain'):
+            parts.append('%s=%s' % (n, rng.choice(['v', '"v"', '"u v"'] if n == 'class' else ['v', "'v'"])))
+            put(n, None)
+        elif k in ('class-empty', 'id-empty'):
+            parts.append('%s=%s' % (n, rng.choice(['""', "''"])))
+            put(n, [0], empty=True)
+        elif k == 'empty':
+            parts.append(n)
+            put(n, [0])
+        elif k == 'empty-q':
+            parts.append('%s=%s' % (n, rng.choice(['""', "''", '{}'])))
+            put(n, [0])
+        elif k == 'field':
+            v, f = prim_value(rng, 'id', rng.choice([1, 2]))
+            q = '"' if (re.search(r'\s', v) or rng.random() < 0.3) else ''
+            parts.append('%s=%s%s%s' % (n, q, v, q))
+            put(n, f)
+        else:
+            parts.append('%s=%s' % (n, rng.choice(['v', '"u v"', '{e}'])))
+            put(n, None)
+    if not head and not parts:
+        head = 'p'
+    abbr = head + ('[%s]' % ' '.join(parts) if parts else '')
+    if html:
+        groups = [e[1] for e in entries if e[1]]
+    else:
+        groups = [e[1] for e in entries if e[1] and e[0] in ('id', 'class')] + \
+                 [e[1] for e in entries if e[1] and e[0] not in ('id', 'class')]
+    has_kids = depth < 2 and rng.random() < 0.3
+    r = rng.random()
+    if r < 0.2:
+        abbr += '{%s}' % rng.choice(['t', 'hello world', 'x\ny'])
+    elif r < 0.45 and not (html and has_kids):
+        t, f = split_text(rng, rng.choice([1, 2, 3]))
+        abbr += '{%s}' % t
+        groups.append(f)
+    elif not has_kids:
+        groups.append([0])
+    kids, kg = prim_seq(rng, depth + 1, html) if has_kids else ('', [])
+    groups = groups + kg
+    rep = rng.choice([2, 3]) if rng.random() < 0.1 else None
+    if rep:
+        abbr += '*%d' % rep
+        groups = groups * rep
+    if has_kids:
+        abbr += '>' + kids
+    return abbr, groups, has_kids
+
+
+def prim_seq(rng, depth, html, force=None):
+    """`+` sequence of 1..3 units: elements of prim_element and, as neighbours, the tabstop-taking units of split_unit."""
+    n = rng.choice([1, 2, 2, 3])
+    forced_at = rng.randrange(n)
+    units = []
+    for k in range(n):
+        if k == forced_at or rng.random() < 0.6:
+            units.append(prim_element(rng, depth, html, force if k == forced_at else None))
+        else:
+            units.append(split_unit(rng, 3, html))
+    parts = []
+    groups = []
+    for k, (a, gr, nests) in enumerate(units):
+        parts.append('(%s)' % a if nests and k < len(units) - 1 else a)
+        groups += gr
+    return '+'.join(parts), groups
+
+
+def primary_field_cases(rng, n):
+    out = []
+    for _ in range(n):
+        html = rng.random() < 0.4
+        abbr, groups = prim_seq(rng, 0, html, force=rng.choice(['class-f', 'class-f', 'id-f']))
+        if rng.random() < 0.2:
+            abbr = '%s>%s' % (rng.choice(PRIM_NAMES), abbr)
+        syn = rng.choice(fu.HTML_SYNTAXES if html else fu.INDENT_SYNTAXES)
+        cfg = fu.rand_base(rng, [syn])
+        cfg['options'].pop('output.reverseAttributes', None)
+        cos = fu.rand_cosmetic(rng, PRIM_NAMES[:6])
+        cos['output.newline'] = rng.choice(NEWLINES)
+        cfg = fu.with_options(cfg, cos)
+        meta = {'explicit': True, 'distinct': True, 'primary': True}
+        if not (html and cfg['options'].get('comment.enabled')):
+            # (with comments on, the html family repeats id / class -- fields included -- inside the comment: those runs are
+            # held to "all indices differ" only)
+            meta['groups'] = groups
+        out.append((abbr, cfg, meta))
+    return out
+
+
+def primary_field_grid():
+    """Small complete grid: class / id value with 1 or 2 fields, indices from {0,1,2} in every order x what follows in the
+    document (nothing but the leaf itself, an empty attribute written after / before it, text with a field, a child, a
+    sibling) x bracket class / bracket id / shorthand class merged with bracket class / id and class both with fields x
+    pug, haml, slim, html."""
+    import itertools
+    out = []
+    syns = ['pug', 'haml', 'slim', 'html']
+    k = 0
+    for nf in (1, 2):
+        for idx in itertools.permutations(range(3), nf):
+            val = ' '.join(('c${%d:k}' if j % 2 else '${%d}') % i for j, i in enumerate(idx))
+            f = list(idx)
+            for form in ('class', 'id', 'merged', 'both'):
+                v = val.replace(' ', '') if form == 'id' else val
+                for follow in ('leaf', 'attr-after', 'attr-before', 'text', 'child', 'sibling'):
+                    syn = syns[k % len(syns)]
+                    k += 1
+                    html = syn == 'html'
+                    if form == 'class':
+                        own, og = 'class="%s"' % v, [f]
+                    elif form == 'id':
+                        own, og = 'id=%s' % v, [f]
+                    elif form == 'merged':
+                        own, og = 'class="%s"' % v, [f]
+                    else:
+                        own, og = 'class="%s" id=x${1:i}' % v, [f, [1]]
+                    head = 'p.a' if form == 'merged' else 'p'
+                    if follow == 'leaf':
+                        abbr, groups = '%s[%s]' % (head, own), og + [[0]]
+                    elif follow == 'attr-after':
+                        abbr, groups = '%s[%s title]' % (head, own), og + [[0], [0]]
+                    elif follow == 'attr-before':
+                        abbr = '%s[title %s]' % (head, own)
+                        groups = ([[0]] + og if html else og + [[0]]) + [[0]]
+                    elif follow == 'text':
+                        abbr, groups = '%s[%s]{t ${1}}' % (head, own), og + [[1]]
+                    elif follow == 'child':
+                        abbr, groups = '%s[%s]>b' % (head, own), og + [[0]]
+                    else:
+                        abbr, groups = '%s[%s]+q' % (head, own), og + [[0], [0]]
+                    out.append((abbr, {'syntax': syn}, {'explicit': True, 'distinct': True, 'primary': True, 'groups': groups}))
+    return out
+
+
+def stmt_elements(stmt):
+    for unit, _ in stmt:
+        if isinstance(unit, g.Group):
+            for e in stmt_elements(unit.items):
+                yield e
+        else:
+            yield unit
+
+
+PRIMARY_FIELD_ATTR_RE = re.compile(r'[\[ ](?:class|id)="[^"]*\$\{')
+PRIMARY_AST_VALUES = [('class', 'c ${1:k}'), ('class', '${2} k${1:m}'), ('class', '${0}'), ('class', 'item\t${3:t}  w'),
+                      ('id', 'x${1:i}'), ('id', '${2:a}${1}'), ('class', '${1}')]
+
+
+def add_primary_fields(rng, st):
+    """AST stream: give some elements an id / class value with fields in bracket form (next to whatever the decorator put)."""
+    for el in stmt_elements(st):
+        if rng.random() < 0.4:
+            n, v = rng.choice(PRIMARY_AST_VALUES)
+            if n == 'id' and el.id is not None:
+                continue
+            if any(a[0].rstrip('.') == n for a in el.attrs):
+                continue
+            el.attrs = list(el.attrs)
+            el.attrs.insert(rng.randint(0, len(el.attrs)), (n, v, '"'))
+
+
 def load_corpus():
     out = []
     for p in sorted(glob.glob(os.path.join(CORPUS, '*.json'))):
@@ -474,6 +734,8 @@ def make_case(rng):
                          max_depth=3, rep_max=3, decorate=fu.decorator(rng, level))
     else:
         st = fu.rand_abbr(rng, 'c13')
+    if PRIMARY_FIELDS_ON and rng.random() < 0.12:
+        add_primary_fields(rng, st)
     abbr = g.render(st)
     syn = rng.choice(fu.HTML_SYNTAXES + fu.HTML_SYNTAXES + fu.INDENT_SYNTAXES)
     cfg = fu.rand_base(rng, [syn])
@@ -522,6 +784,17 @@ def run(ctx):
         'text-only node / element x four configurations); '
         'expected structure: html family = children in place of the first field, the remaining fields of the value one group '
         'after them (relative numbering kept, above every tabstop of the children); indent family = value first, then children. '
+        'Values of id / class with fields (dedicated stream + complete small grid + 12% of the AST-generator cases get such '
+        'values added): bracket forms [class="c ${1:k}"], [id=x${2}] with 1..3 blank-separated names (blank, blanks, tab), 1..3 '
+        'fields with pairwise different indices in any order (alone as a name / at the start / middle / end of one, with and '
+        'without placeholder), alone or merged with shorthand classes, anywhere among 1..4 bracket attributes (empty implied / '
+        'quoted / {} values, other attributes with fields, plain ones), shorthand id, nameless elements, text (plain, multi-line, '
+        'with fields), children, *N, tabstop-taking neighbours, below a parent; all nine syntaxes x the base / cosmetic options. '
+        'Expected structure: pug/haml/slim = id and class values (written order) first, then the other attributes, text / '
+        'empty leaf, children; html family = attributes in written order (with comment.enabled, where id / class are repeated in '
+        'the comment: all indices differ). grid: 1 or 2 fields with indices from {0,1,2} in every order x {leaf, empty attribute '
+        'after / before, text with field, child, sibling} x {class, id, shorthand+bracket class, class and id} over pug/haml/slim/html. '
+        'Not explored: id / class values WRITTEN empty ([class=""]) -- guarded off, see PRIMARY_EMPTY_VALUES_ON. '
         'The same cases go through the extracted model (event sequences compared). stylesheet: '
         'snippet sums x css/scss/sass/less/sss/stylus x newline/indent/baseIndent/between/after: positions oracle on the '
         'implementation. non-trivial = at least one field callback and three text callbacks; distinct by (abbreviation, config). '
@@ -591,6 +864,14 @@ def run(ctx):
         spl = split_value_cases(rng, 900 if ctx.tier == 'quick' else 12000)
         cases.extend(spl)
         ctx.cov['value_with_fields_and_children_cases'] = len(spl)
+    if PRIMARY_FIELDS_ON:
+        pgrid = primary_field_grid()
+        cases.extend(pgrid)
+        ctx.cov['id_class_values_with_fields_grid'] = len(pgrid)
+        prim = primary_field_cases(rng, 700 if ctx.tier == 'quick' else 10000)
+        cases.extend(prim)
+        ctx.cov['id_class_values_with_fields_cases'] = len(prim)
+        ctx.cov['id_class_values_written_empty'] = 'on' if PRIMARY_EMPTY_VALUES_ON else 'off (PRIMARY_EMPTY_VALUES_ON)'
     impl = run_cases(ctx, model, cases, 'C13', None, mode='events')
     for (abbr, cfg, meta), r in zip(cases, impl):
         bad = oracle(abbr, cfg, meta, r)
@@ -609,6 +890,14 @@ def run(ctx):
             if meta and meta.get('split'):
                 ctx.cover('C13:split-value-%s' % ('html-family' if cfg.get('syntax', 'html') in fu.HTML_SYNTAXES else 'indent-family'))
                 ctx.cover('C13:split-value-tabstops-%s' % ('0' if nf == 0 else '1-2' if nf <= 2 else '3-5' if nf <= 5 else '6+'))
+            if meta and meta.get('primary'):
+                fam = 'html-family' if cfg.get('syntax', 'html') in fu.HTML_SYNTAXES else 'indent-family'
+                ctx.cover('C13:id-class-fields-%s' % fam)
+                if meta.get('groups') is not None:
+                    ctx.cover('C13:id-class-fields-%s-structure-checked' % fam)
+            elif meta and PRIMARY_FIELD_ATTR_RE.search(abbr):
+                ctx.cover('C13:id-class-fields-in-ast-stream-%s' % (
+                    'html-family' if cfg.get('syntax', 'html') in fu.HTML_SYNTAXES else 'indent-family'))
             if meta and meta.get('countable'):
                 ctx.cover('C13:tabstop-count-checked')
             if any(e[0] == 'field' and '\n' in e[2] for e in r[2]):
